@@ -35,7 +35,7 @@ BASE_PROFILE: Dict[str, Any] = dict(
     p_nested_flag=0.3, p_same_inner_twice=0.0, p_p6=0.0, p_explicit_default=0.7,
     shape_bias=[("uniform", 3), ("recent", 2), ("early", 1), ("wide", 1)],
     p_setup_in_nested=0.0, main_flat=False, all_return=False, p_inner_const=0.0, w_concat=1.0, p_tag_is_id=0.0,
-    p_none_default=0.12, p_pass=0.1, p_many_args=0.01, swarm=("resources", "p_dep", "max_args"),
+    p_none_default=0.12, p_pass=0.1, p_many_args=0.01, p_keyed_return=0.0, swarm=("resources", "p_dep", "max_args"),
 )
 
 
@@ -429,7 +429,14 @@ class ProgramGen:
         d, p = self.d, self.prof
         real = self._returnable(st)
         if p["all_return"]:
-            items = [["v", v.name, []] for v in st["vars"] if not v.param and not v.debug]
+            items = []
+            for v in st["vars"]:
+                if v.param or v.debug:
+                    continue
+                if p["p_keyed_return"] and not v.key and v.type in ELEMS and d.bool(p["p_keyed_return"]):
+                    items.append(["v", v.name, [d.pick(ELEMS[v.type])[0]]])   # indexed part of a result in the return value
+                else:
+                    items.append(["v", v.name, []])
             self._set_ret_types(st, items)
             return {"shape": "tuple", "items": items, "keys": []}
         shapes = [(s, w) for s, w in p["ret_shapes"] if not (depth > 0 and s == "none")]
